@@ -461,7 +461,23 @@ func Cyclic(r []P) []P {
 // opposite orientation (turn = orientation of consecutive triples).
 func Convex(r []P) bool {
 	c := Cyclic(r)
+	// a repeated position has no direction of its own: the turn at a vertex is
+	// taken between the last edge that arrives there and the first one that
+	// leaves it, so runs of equal consecutive positions (cyclically) count once
+	d := c[:0:0]
+	for i, p := range c {
+		if i == 0 || p != c[i-1] {
+			d = append(d, p)
+		}
+	}
+	for len(d) > 1 && d[len(d)-1] == d[0] {
+		d = d[:len(d)-1]
+	}
+	c = d
 	n := len(c)
+	if n < 3 {
+		return true
+	}
 	pos, neg := false, false
 	for i := 0; i < n; i++ {
 		o := Orient(c[i], c[(i+1)%n], c[(i+2)%n])
